@@ -39,7 +39,7 @@ def strategy_(draw, tier):
     if src == "grammar":
         struct = draw(sn.structures(max_atoms=40 if tier == "quick" else 120, max_tuples=40, allow_empty=False))
         return {"src": src, "struct": struct, "seeds": [draw(st.integers(0, 2**31)) for _ in range(3)]}
-    mol = draw(gens.mols(tier, families=("er", "skeleton", "chem", "wlhard")))
+    mol = draw(gens.mols(tier, families=("er", "skeleton", "chem", "wlhard", "multi")))
     return {"src": src, "mol": mol, "seeds": [draw(st.integers(0, 2**31)) for _ in range(3)]}
 
 
